@@ -403,13 +403,18 @@ def layout_one_gap(gap, name):
 
 # ---------------------------------------------------------------------------- TLC drivers
 
-def generate(check, family, rootcat="top", rootmax=2, depth=3, num=2000, seed=1, allowed=None, exhaustive=False, timeout=1800, maxchoices=0):
-    """Runs SyntaxGen.tla; returns (table, behaviours)."""
+def generate(check, family, rootcat="top", rootmax=2, depth=3, num=2000, seed=1, allowed=None, exhaustive=False, timeout=1800, maxchoices=0,
+             listlens=None, glue=None, wrappers=None):
+    """Runs SyntaxGen.tla; returns (table, behaviours).  listlens: lengths for every repeatable list (long-list mode);
+    glue: variant ids of the self-nesting mode (one other variant per derivation)."""
     al = "{" + ", ".join('"%s"' % a for a in (allowed or [])) + "}"
-    mc = "---- MODULE MCSyntaxGen ----\nEXTENDS SyntaxGen\nASSUME ExportTable\nMCAllowed == %s\n====\n" % al
+    gl = "{" + ", ".join('"%s"' % a for a in (glue or [])) + "}"
+    ll = "{" + ", ".join(str(n) for n in (listlens or [])) + "}"
+    wr = "{" + ", ".join('"%s"' % a for a in (wrappers or [])) + "}"
+    mc = "---- MODULE MCSyntaxGen ----\nEXTENDS SyntaxGen\nASSUME ExportTable\nMCAllowed == %s\nMCGlue == %s\nMCWrappers == %s\nMCListLens == %s\n====\n" % (al, gl, wr, ll)
     cfg = ("SPECIFICATION GSpec\nCONSTANTS RootCat = \"%s\" RootMax = %d Depth = %d Family = \"%s\" Random = %s MaxChoices = %d\n"
-           "CONSTANT Allowed <- MCAllowed\nINVARIANTS Terminates NoDeadEnd\nCHECK_DEADLOCK FALSE\n"
-           % (rootcat, rootmax, depth, family, "FALSE" if exhaustive else "TRUE", maxchoices))
+           "CONSTANT Allowed <- MCAllowed\nCONSTANT Glue <- MCGlue\nCONSTANT Wrappers <- MCWrappers\nCONSTANT ListLens <- MCListLens\nINVARIANTS Terminates%s\nCHECK_DEADLOCK FALSE\n"
+           % (rootcat, rootmax, depth, family, "FALSE" if exhaustive else "TRUE", maxchoices, "" if glue else " NoDeadEnd"))
     pick = None
     if exhaustive:
         r = core.tlc("MCSyntaxGen", cfg, files={"MCSyntaxGen.tla": mc}, timeout=timeout, heap="12g")
@@ -417,7 +422,7 @@ def generate(check, family, rootcat="top", rootmax=2, depth=3, num=2000, seed=1,
         # the checks that sample whole programs share one simulation per family (and TLC's cached answer): each check takes
         # its own seeded selection of it
         pool = 3000
-        if rootcat == "top" and rootmax == 2 and depth == 3 and not allowed and num <= pool:
+        if rootcat == "top" and rootmax == 2 and depth == 3 and not allowed and num <= pool and not listlens and not glue:
             pick, num_run, seed_run = (num, seed), pool, core.seed()
         else:
             num_run, seed_run = num, seed
